@@ -49,5 +49,9 @@ def pairs():
       "segment_os_free": dict(name="segment_os_free", entry="h_segment_os_free", harness="harness/seg_alloc.c", enforce="mi_segment_os_free", config="SCALED", label="PC", unwind=14,
                   unwindset={"_mi_commit_mask_committed_size.0": 66, "_mi_commit_mask_committed_size.1": 4},
                   replace=["_mi_arena_free/c_arena_free_rec2", "mi_segments_track_size/c_track_size_rec2", "_mi_segment_map_freed_at"], functions=["mi_segment_os_free", "_mi_commit_mask_committed_size"], timeout=600),
+      "segment_page_free": dict(name="segment_page_free", entry="h_segment_page_free", harness="harness/seg_pagefree.c", enforce="_mi_segment_page_free", config="SCALED", label="P", unwind=14, cbmc_flags=NOPTR,
+                  replace=["mi_segment_page_clear/c_page_clear_rec", "mi_segment_free/c_segment_free_rec", "mi_segment_abandon/c_segment_abandon_rec", "mi_segment_try_purge/c_seg_try_purge_rec3"], functions=["_mi_segment_page_free"], timeout=300),
+      "segment_page_abandon": dict(name="segment_page_abandon", entry="h_segment_page_abandon", harness="harness/seg_pagefree.c", enforce="_mi_segment_page_abandon", config="SCALED", label="P", unwind=14, cbmc_flags=NOPTR,
+                  replace=["mi_segment_abandon/c_segment_abandon_rec"], functions=["_mi_segment_page_abandon"], timeout=300),
       "seg_ensure_committed": P("seg_ensure_committed", "h_ensure_committed", "mi_segment_ensure_committed", ["mi_segment_commit/c_seg_commit_rec"]),
     }
